@@ -47,6 +47,23 @@ def sched_json(net) -> list:
     return out
 
 
+def sched_activation_faults(net) -> list:
+    """the per-step activation lists of the compiled schedule against the activation the net carries for each node:
+    every target of a step appears exactly once in the step's activation lists, under its own activation code"""
+    faults = []
+    for step, (t, codes, groups) in enumerate(zip(net._numba_to, net._numba_activs_code, net._numba_activs_nodes)):
+        seen = {}
+        for code, nodes in zip(codes, groups):
+            for nd in nodes:
+                seen.setdefault(int(nd), []).append(int(code))
+        for nd in (int(x) for x in t):
+            want = int(net._activs[nd])
+            if seen.get(nd) != [want]:
+                faults.append({"step": step, "node": nd, "carried_activation": want, "applied_activations": seen.get(nd, [])})
+        faults += [{"step": step, "node": nd, "carried_activation": None, "applied_activations": c} for nd, c in seen.items() if nd not in {int(x) for x in t}]
+    return faults
+
+
 def tree_syms(tree) -> list:
     """net-encoding tree -> list of NSym JSON objects in prefix order"""
     from thefittest.base import FunctionalNode, TerminalNode
